@@ -97,7 +97,8 @@ def draw_case(rng: numpy.random.Generator, small: bool = True, force: Optional[d
             # redundant components taken "from separate static runs": they disagree with the relations by 0.02-0.12 GPa,
             # well inside the default residual tolerance; the filling (a least-squares compromise) must still be applied
             noisy = True
-            ds.static_table[:, -n_extra:] += rng.uniform(0.02, 0.12, size=(nv, n_extra)) * rng.choice([-1.0, 1.0], size=(nv, n_extra))
+            nrow = ds.static_table.shape[0]
+            ds.static_table[:, -n_extra:] += rng.uniform(0.02, 0.12, size=(nrow, n_extra)) * rng.choice([-1.0, 1.0], size=(nrow, n_extra))
     # ---- order of the rows of the static table: the reader takes the rows as listed and nothing requires them to be sorted (only
     #      the PHONON file must list decreasing volumes); the lattice block, when present, is listed in the same order as the rows
     static_rows = force.get("static_rows", "listed")
